@@ -19,7 +19,7 @@ def worker(case):
     base = core.unb64(case["data"])
     pos, bit = case["pos"], case["bit"]
     data = base[:pos] + bytes([base[pos] ^ (1 << bit)]) + base[pos + 1:]
-    cid = core.h8([case["base"], pos, bit, case["sizes"]])
+    cid = core.h8([case["base"], pos, bit, case["sizes"], case.get("mode"), case.get("pre")])
     stats = {"corrupted_files": 1}
     try:
         p = zckref.parse(base)
@@ -44,7 +44,21 @@ def worker(case):
                 stats["still_decompressible_same_size"] = 1
         except (zckref.Invalid, zckref.Inconclusive):
             dec = None
-        rd = core.run_zh(case["zh"], cdir, gen.reader_script("f.zck", sizes=case["sizes"], extra=3), {"f.zck": data}, name="read")
+        mode = case.get("mode", "plain")
+        if mode == "plain":
+            rd = core.run_zh(case["zh"], cdir, gen.reader_script("f.zck", sizes=case["sizes"], extra=3), {"f.zck": data}, name="read")
+        elif mode == "clear":
+            # the caller clears the (recoverable) error after the failing read and keeps reading with small buffers
+            L = ["fopen 1 f.zck r input", "create 1", "init_read 1 1", "readall 1 0 %s" % " ".join(str(x) for x in case["sizes"])]
+            for n in (1, 100, 1000, 4096, 7, 100000):
+                L += ["clear_error 1", "read 1 %d" % n]
+            L += ["close 1"]
+            rd = core.run_zh(case["zh"], cdir, "\n".join(L) + "\n", {"f.zck": data}, name="read")
+        else:
+            # validated while intact, then the stored bytes change on disk, then the stream is read
+            L = ["fopen 1 f.zck rw input", "create 1", "init_read 1 1", "%s 1" % case.get("pre", "vc"), "poke 1 %d x:%02x" % (pos, data[pos]),
+                 "readall 1 3 %s" % " ".join(str(x) for x in case["sizes"]), "close 1"]
+            rd = core.run_zh(case["zh"], cdir, "\n".join(L) + "\n", {"f.zck": base}, name="read")
         if rd.timed_out and not rd.cpu_exceeded:
             return core.verdict(cid, "inconclusive", detail="watchdog", case=case)
         cs = core.crash_signatures(rd)
@@ -58,7 +72,12 @@ def worker(case):
         seen_err = False
         viol = None
         nreads = 0
-        for e in rd.ev(ev="read"):
+        orig_piece = None
+        try:
+            orig_piece = zckref.decode(base).pieces[k]
+        except Exception:
+            pass
+        for e in [x for x in rd.events if x.get("ev") == "read" or x.get("op") == "read"]:
             nreads += 1
             rc = e["rc"]
             if rc < 0:
@@ -69,10 +88,16 @@ def worker(case):
             lo, hi = off, off + rc
             off = hi
             bad = (k == 0) or (lo < u1 and hi > u0)
+            if bad and seen_err and mode == "clear" and k != 0:
+                # after an error the stream position is the library's business; what must not happen is that the
+                # BAD CHUNK'S bytes come out: compare with what its stored bytes decode to / what the chunk originally held
+                got = rd.out[e["off"]:e["off"] + rc]
+                cands = [x for x in (dec, orig_piece) if x]
+                bad = len(got) >= 4 and any(got in x for x in cands)
             if bad:
                 where = "dict" if k == 0 else ("first" if k == 1 else ("last" if k == len(p.chunks) - 1 else "middle"))
                 bs = "small" if e["n"] < p.chunks[max(k, 1)]["len"] else "ge-chunk"
-                viol = ("c15:released-unverified:%s:%s" % ("after-error" if seen_err else "before-error", bs),
+                viol = ("c15:released-unverified:%s:%s%s" % ("after-error" if seen_err else "before-error", bs, "" if mode == "plain" else ":" + mode),
                         "zck_read(n=%d) returned %d bytes covering content [%d,%d) of chunk %d (%s) whose stored bytes fail its checksum (bit %d of file byte %d); "
                         "error seen before: %s" % (e["n"], rc, lo, hi, k, where, bit, pos, seen_err))
                 break
@@ -100,7 +125,8 @@ class C15(core.Check):
     flavours = ["asan"]
     rule = ("zstd files (3-6 chunks, with/without dictionary, with/without uncompressed-source flag) x single-bit flips of body bytes "
             "(sampled in quick, every bit of every body byte in thorough) x read sizes {1,100,chunk-1,chunk,chunk+1,32768}; after the first "
-            "error three more reads are issued. non-trivial = the corrupted chunk still decompresses (so only the checksum can stop it)")
+            "error three more reads are issued; variants: the caller clears the error and keeps reading with small buffers; the file is validated while "
+            "intact, then damaged on disk, then read. non-trivial = the corrupted chunk still decompresses (so only the checksum can stop it)")
     assumptions = ["chunk table taken from the unmodified header (only body bytes are flipped)"]
     worker = staticmethod(worker)
 
@@ -133,4 +159,8 @@ class C15(core.Check):
                 pick = r.sample(szs, 2 if self.quick else 3)
                 for sizes in pick:
                     out.append({"base": b["name"], "data": core.b64(b["data"]), "pos": pos, "bit": bit, "sizes": sizes, "zh": ctx["zh"]})
+                if k >= 1 and (not self.quick or r.random() < 0.5):
+                    out.append({"base": b["name"], "data": core.b64(b["data"]), "pos": pos, "bit": bit, "sizes": r.choice([[1000], [4096], [cl], [100]]), "zh": ctx["zh"], "mode": "clear"})
+                    out.append({"base": b["name"], "data": core.b64(b["data"]), "pos": pos, "bit": bit, "sizes": r.choice(szs), "zh": ctx["zh"], "mode": "tamper",
+                                "pre": r.choice(["vc", "vc", "fv", "vd"])})
         return out
